@@ -4,6 +4,7 @@ package obs
 
 import (
 	"fmt"
+	"sync/atomic"
 
 	"github.com/nlnwa/whatwg-url/url"
 )
@@ -32,15 +33,99 @@ type Snap struct {
 	Str         string `json:"string"`
 }
 
+// The order in which Take and TakeTen call the getters is a permutation chosen per case
+// (SetOrder, called from core.Ctx.Begin with the case hash): a getter that refreshes or
+// fills a cache as a side effect must not always be the first one the monitors call, or
+// a stale answer of another getter is never seen (observer effect).  Permutation 0 is the
+// declaration order.
+var (
+	order   atomic.Uint32
+	perms20 [64][20]uint8
+	perms10 [64][10]uint8
+)
+
+func init() {
+	x := uint64(0x9E3779B97F4A7C15)
+	next := func(n int) int {
+		x += 0x9E3779B97F4A7C15
+		z := x
+		z = (z ^ (z >> 30)) * 0xBF58476D1CE4E5B9
+		z = (z ^ (z >> 27)) * 0x94D049BB133111EB
+		z ^= z >> 31
+		return int(z % uint64(n))
+	}
+	for k := range perms20 {
+		for i := range perms20[k] {
+			perms20[k][i] = uint8(i)
+		}
+		for i := range perms10[k] {
+			perms10[k][i] = uint8(i)
+		}
+		if k == 0 {
+			continue
+		}
+		for i := 19; i > 0; i-- {
+			j := next(i + 1)
+			perms20[k][i], perms20[k][j] = perms20[k][j], perms20[k][i]
+		}
+		for i := 9; i > 0; i-- {
+			j := next(i + 1)
+			perms10[k][i], perms10[k][j] = perms10[k][j], perms10[k][i]
+		}
+	}
+}
+
+// SetOrder selects the getter order for the following Take/TakeTen calls.
+func SetOrder(h uint64) { order.Store(uint32(h % 64)) }
+
 // Take reads every getter.
 func Take(u *url.Url) Snap {
-	return Snap{
-		Href: u.Href(false), HrefNoFrag: u.Href(true), Protocol: u.Protocol(), Scheme: u.Scheme(),
-		Username: u.Username(), Password: u.Password(), Host: u.Host(), Hostname: u.Hostname(),
-		Port: u.Port(), DecodedPort: u.DecodedPort(), Pathname: u.Pathname(), Search: u.Search(),
-		Query: u.Query(), Hash: u.Hash(), Fragment: u.Fragment(), Opaque: u.OpaquePath(),
-		Special: u.IsSpecialScheme(), IPv4: u.IsIPv4(), IPv6: u.IsIPv6(), Str: u.String(),
+	var s Snap
+	for _, i := range perms20[order.Load()] {
+		switch i {
+		case 0:
+			s.Href = u.Href(false)
+		case 1:
+			s.HrefNoFrag = u.Href(true)
+		case 2:
+			s.Protocol = u.Protocol()
+		case 3:
+			s.Scheme = u.Scheme()
+		case 4:
+			s.Username = u.Username()
+		case 5:
+			s.Password = u.Password()
+		case 6:
+			s.Host = u.Host()
+		case 7:
+			s.Hostname = u.Hostname()
+		case 8:
+			s.Port = u.Port()
+		case 9:
+			s.DecodedPort = u.DecodedPort()
+		case 10:
+			s.Pathname = u.Pathname()
+		case 11:
+			s.Search = u.Search()
+		case 12:
+			s.Query = u.Query()
+		case 13:
+			s.Hash = u.Hash()
+		case 14:
+			s.Fragment = u.Fragment()
+		case 15:
+			s.Opaque = u.OpaquePath()
+		case 16:
+			s.Special = u.IsSpecialScheme()
+		case 17:
+			s.IPv4 = u.IsIPv4()
+		case 18:
+			s.IPv6 = u.IsIPv6()
+		case 19:
+			s.Str = u.String()
+		}
 	}
+	return s
 }
 
 // Ten is href plus the nine WHATWG API getters, in refmodel.TenNames order.
@@ -48,10 +133,39 @@ func (s Snap) Ten() [10]string {
 	return [10]string{s.Href, s.Protocol, s.Username, s.Password, s.Host, s.Hostname, s.Port, s.Pathname, s.Search, s.Hash}
 }
 
+// GetTen reads one of the ten (index as in refmodel.TenNames).
+func GetTen(u *url.Url, i int) string {
+	switch i {
+	case 0:
+		return u.Href(false)
+	case 1:
+		return u.Protocol()
+	case 2:
+		return u.Username()
+	case 3:
+		return u.Password()
+	case 4:
+		return u.Host()
+	case 5:
+		return u.Hostname()
+	case 6:
+		return u.Port()
+	case 7:
+		return u.Pathname()
+	case 8:
+		return u.Search()
+	default:
+		return u.Hash()
+	}
+}
+
 // TakeTen reads only href and the nine getters.
 func TakeTen(u *url.Url) [10]string {
-	return [10]string{u.Href(false), u.Protocol(), u.Username(), u.Password(), u.Host(), u.Hostname(),
-		u.Port(), u.Pathname(), u.Search(), u.Hash()}
+	var t [10]string
+	for _, i := range perms10[order.Load()] {
+		t[i] = GetTen(u, int(i))
+	}
+	return t
 }
 
 // Diff lists the fields in which two snapshots differ.
